@@ -295,3 +295,233 @@ def validate_rows():
             if not ok:
               bad.append(f"ref_row mismatch solref={sr} solimp={si} refsafe={refsafe} ts={ts} row{i} type{tp}: ref D={r['D']} aref={r['aref']} imp={r['imp']} vs mujoco D={d.efc_D[i]} aref={d.efc_aref[i]} KBIP={d.efc_KBIP[i]}")
   return bad, n
+
+
+# =========================================================================================== readers
+# The expected rows of one builder thread are written once, over an abstract reader of the kernel's INPUT arrays:
+#   SymReader  z3 terms of the symbolic pre-state (solver queries)
+#   NumReader  numpy arrays (replay goals on real kernel launches, numeric validation against the mujoco library)
+
+
+class NumReader:
+  def __init__(self, arrays, scalars, tid, U=8):
+    self.a, self.s, self.tid, self.U, self.sym = arrays, scalars, tuple(int(t) for t in tid), U, False
+
+  def rd(self, label, *idx, k=0):
+    import numpy as np
+
+    try:
+      if any(int(i) < 0 for i in idx):
+        return 0
+      v = np.asarray(self.a[label][tuple(int(i) for i in idx)]).reshape(-1)[k]
+    except (IndexError, KeyError):
+      return 0
+    return v.item() if hasattr(v, "item") else v
+
+  def rdv(self, label, *idx, n=None):
+    import numpy as np
+
+    try:
+      if any(int(i) < 0 for i in idx):
+        raise IndexError
+      v = np.asarray(self.a[label][tuple(int(i) for i in idx)], dtype=float).reshape(-1)
+      return [float(x) for x in v]
+    except (IndexError, KeyError):
+      return [0.0] * (n or 1)
+
+  def dim(self, label, d):
+    return int(self.a[label].shape[d])
+
+  def scalar(self, label):
+    return self.s[label]
+
+  def wmod(self, label):
+    return self.tid[0] % max(1, self.dim(label, 0))
+
+  def has(self, label):
+    return label in self.a or label in self.s
+
+
+class SymReader:
+  def __init__(self, kt, U):
+    self.kt, self.tid, self.U, self.sym = kt, kt.tid if isinstance(kt.tid, tuple) else (kt.tid,), U, True
+
+  def rd(self, label, *idx, k=0):
+    return self.kt.pre(label, *idx, k=k)
+
+  def rdv(self, label, *idx, n=None):
+    c = self.kt.cell(label)
+    return [self.kt.pre(label, *idx, k=i) for i in range(c.ncomp)]
+
+  def dim(self, label, d):
+    return self.kt.cell(label).shape[d]
+
+  def scalar(self, label):
+    return self.kt.args[label]
+
+  def wmod(self, label):
+    return core.arith("%", self.tid[0], self.dim(label, 0))
+
+  def has(self, label):
+    return label in self.kt.args
+
+
+def _mrd(R, label, *idx, k=0):
+  """model field with leading nworld-or-1 dimension"""
+  return R.rd(label, R.wmod(label), *idx, k=k)
+
+
+def _mrdv(R, label, *idx, n=None):
+  return R.rdv(label, R.wmod(label), *idx, n=n)
+
+
+def ref_poly(data, dif):
+  d2 = mul(dif, dif)
+  d3 = mul(d2, dif)
+  d4 = mul(d3, dif)
+  val = vsum([data[0], mul(data[1], dif), mul(data[2], d2), mul(data[3], d3), mul(data[4], d4)])
+  der = vsum([data[1], mul(mul(2.0, data[2]), dif), mul(mul(3.0, data[3]), d2), mul(mul(4.0, data[4]), d3)])
+  return val, der
+
+
+def tendon_J(R, tenid, c, scale=1.0):
+  """column c of the stored (CSR) tendon Jacobian row: sum of entries with colind == c"""
+  return jsum(tendon_Jt(R, tenid, c, scale))
+
+
+def tendon_Jt(R, tenid, c, scale=1.0):
+  """the same as a list of (condition, coefficient) contributions"""
+  nnz, adr = R.rd("ten_J_rownnz", tenid), R.rd("ten_J_rowadr", tenid)
+  w = R.tid[0]
+  return [(And(lt(k, nnz), eq(R.rd("ten_J_colind", add(adr, k)), c)), mul(scale, R.rd("ten_J_in", w, add(adr, k)))) for k in range(R.U)]
+
+
+def jsum(terms):
+  """Jacobian entry from its (condition, coefficient) contributions"""
+  return vsum([ite(cnd, cf, 0.0) for cnd, cf in terms])
+
+
+def tendon_J_pre(R, tenid):
+  """CSR well-formedness of the tendon row (MuJoCo model invariant): rownnz <= bound, columns strictly increasing, in [0, nv)"""
+  nnz, adr = R.rd("ten_J_rownnz", tenid), R.rd("ten_J_rowadr", tenid)
+  nv = R.scalar("nv")
+  pre = [ge(nnz, 0), le(nnz, R.U), ge(adr, 0)]
+  for k in range(R.U):
+    ck = R.rd("ten_J_colind", add(adr, k))
+    pre.append(core.Implies(lt(k, nnz), And(ge(ck, 0), lt(ck, nv))))
+    if k + 1 < R.U:
+      pre.append(core.Implies(lt(k + 1, nnz), lt(ck, R.rd("ten_J_colind", add(adr, k + 1)))))
+  return pre
+
+
+def tendon_cases(R, tenid):
+  """complete case split of a well-formed tendon row: (number of entries, their columns)"""
+  import itertools
+
+  nnz, adr = R.rd("ten_J_rownnz", tenid), R.rd("ten_J_rowadr", tenid)
+  out = []
+  for n in range(R.U + 1):
+    for cols in itertools.combinations(range(R.U), n):
+      out.append((f"{n}:{','.join(map(str, cols))}", And(eq(nnz, n), *[eq(R.rd("ten_J_colind", add(adr, i)), cols[i]) for i in range(n)])))
+  return out
+
+
+def _row(pos_aref, pos_imp, invweight, solref, solimp, margin, frictionloss, type_, id_):
+  return {"pos_aref": pos_aref, "pos_imp": pos_imp, "invweight": invweight, "solref": solref, "solimp": solimp, "margin": margin, "frictionloss": frictionloss, "type": type_, "id": id_}
+
+
+# ------------------------------------------------------------------------------------------- expected rows per builder
+
+
+def expected_equality_joint(R):
+  w, t = R.tid
+  eqid = R.rd("eq_jnt_adr", t)
+  j1, j2 = R.rd("eq_obj1id", eqid), R.rd("eq_obj2id", eqid)
+  has2 = ge(j2, 0)
+  data = _mrdv(R, "eq_data", eqid, n=11)
+  qa1, da1 = R.rd("jnt_qposadr", j1), R.rd("jnt_dofadr", j1)
+  qa2, da2 = R.rd("jnt_qposadr", j2), R.rd("jnt_dofadr", j2)
+  x1 = sub(R.rd("qpos_in", w, qa1), _mrd(R, "qpos0", qa1))
+  x2 = sub(R.rd("qpos_in", w, qa2), _mrd(R, "qpos0", qa2))
+  val, der = ref_poly(data, x2)
+  pos = sub(x1, ite(has2, val, data[0]))
+  der = ite(has2, der, 0.0)
+  iw = add(_mrd(R, "dof_invweight0", da1), ite(has2, _mrd(R, "dof_invweight0", da2), 0.0))
+  row = _row(pos, pos, iw, _mrdv(R, "eq_solref", eqid, n=2), _mrdv(R, "eq_solimp", eqid, n=5), 0.0, 0.0, EQUALITY, eqid)
+  J = lambda r, c: [(eq(c, da1), 1.0), (And(has2, eq(c, da2)), neg(der))]
+  nv = R.scalar("nv")
+  pre = [("joint equality couples two different dofs", Or(Not(has2), ne(da1, da2))), ("dof addresses lie in [0, nv)", And(ge(da1, 0), lt(da1, nv), Or(Not(has2), And(ge(da2, 0), lt(da2, nv)))))]
+  return {"act": ne(R.rd("eq_active_in", w, eqid), False), "counter": "ne_out", "rows": [row], "J": J, "pre": pre}
+
+
+def expected_equality_tendon(R):
+  w, t = R.tid
+  eqid = R.rd("eq_ten_adr", t)
+  t1, t2 = R.rd("eq_obj1id", eqid), R.rd("eq_obj2id", eqid)
+  has2 = ge(t2, 0)
+  data = _mrdv(R, "eq_data", eqid, n=11)
+  x1 = sub(R.rd("ten_length_in", w, t1), _mrd(R, "tendon_length0", t1))
+  x2 = sub(R.rd("ten_length_in", w, t2), _mrd(R, "tendon_length0", t2))
+  val, der = ref_poly(data, x2)
+  pos = sub(x1, ite(has2, val, data[0]))
+  der = ite(has2, der, 0.0)
+  iw = add(_mrd(R, "tendon_invweight0", t1), ite(has2, _mrd(R, "tendon_invweight0", t2), 0.0))
+  row = _row(pos, pos, iw, _mrdv(R, "eq_solref", eqid, n=2), _mrdv(R, "eq_solimp", eqid, n=5), 0.0, 0.0, EQUALITY, eqid)
+  J = lambda r, c: tendon_Jt(R, t1, c) + [(And(has2, cnd), cf) for cnd, cf in tendon_Jt(R, t2, c, neg(der))]
+  pre = [("tendon Jacobian rows are well-formed CSR rows (sorted columns in [0,nv))", And(*tendon_J_pre(R, t1)))]
+  pre.append(("second tendon row well-formed when present", Or(Not(has2), And(*tendon_J_pre(R, t2)))))
+  cases = [(f"single/{n1}", And(Not(has2), g1)) for n1, g1 in tendon_cases(R, t1)] if R.sym else []
+  if R.sym:
+    cases += [(f"pair/{n1}/{n2}", And(has2, g1, g2)) for n1, g1 in tendon_cases(R, t1) for n2, g2 in tendon_cases(R, t2)]
+  return {"act": ne(R.rd("eq_active_in", w, eqid), False), "counter": "ne_out", "rows": [row], "J": J, "pre": pre, "cases": cases}
+
+
+def expected_friction_dof(R):
+  w, dof = R.tid
+  fl = _mrd(R, "dof_frictionloss", dof)
+  row = _row(0.0, 0.0, _mrd(R, "dof_invweight0", dof), _mrdv(R, "dof_solref", dof, n=2), _mrdv(R, "dof_solimp", dof, n=5), 0.0, fl, FRICTION_DOF, dof)
+  nv = R.scalar("nv")
+  return {"act": gt(fl, 0.0), "counter": "nf_out", "rows": [row], "J": lambda r, c: [(eq(c, dof), 1.0)], "pre": [("dof addresses lie in [0, nv)", And(ge(dof, 0), lt(dof, nv)))]}
+
+
+def expected_friction_tendon(R):
+  w, ten = R.tid
+  fl = _mrd(R, "tendon_frictionloss", ten)
+  row = _row(0.0, 0.0, _mrd(R, "tendon_invweight0", ten), _mrdv(R, "tendon_solref_fri", ten, n=2), _mrdv(R, "tendon_solimp_fri", ten, n=5), 0.0, fl, FRICTION_TENDON, ten)
+  pre = [("tendon Jacobian rows are well-formed CSR rows (sorted columns in [0,nv))", And(*tendon_J_pre(R, ten)))]
+  return {"act": gt(fl, 0.0), "counter": "nf_out", "rows": [row], "J": lambda r, c: tendon_Jt(R, ten, c), "pre": pre, "cases": tendon_cases(R, ten) if R.sym else []}
+
+
+def _two_sided(x, lo, hi, margin):
+  """MuJoCo limit: side -1: dist = x - lo, side +1: dist = hi - x; a row per side with dist < margin; J = -side * dx"""
+  dlo, dhi = sub(x, lo), sub(hi, x)
+  alo, ahi = lt(dlo, margin), lt(dhi, margin)
+  one = xor(alo, ahi)
+  dist = ite(alo, dlo, dhi)
+  sign = ite(alo, 1.0, -1.0)
+  return {"one": one, "none": And(Not(alo), Not(ahi)), "both": And(alo, ahi), "dist": dist, "sign": sign}
+
+
+def expected_limit_slide_hinge(R):
+  w, t = R.tid
+  j = R.rd("jnt_limited_slide_hinge_adr", t)
+  rng = _mrdv(R, "jnt_range", j, n=2)
+  margin = _mrd(R, "jnt_margin", j)
+  dof = R.rd("jnt_dofadr", j)
+  s = _two_sided(R.rd("qpos_in", w, R.rd("jnt_qposadr", j)), rng[0], rng[1], margin)
+  pa = sub(s["dist"], margin)
+  row = _row(pa, pa, _mrd(R, "dof_invweight0", dof), _mrdv(R, "jnt_solref", j, n=2), _mrdv(R, "jnt_solimp", j, n=5), margin, 0.0, LIMIT_JOINT, j)
+  nv = R.scalar("nv")
+  return {"act": s["one"], "none": s["none"], "both": s["both"], "counter": "nl_out", "rows": [row], "J": lambda r, c: [(eq(c, dof), s["sign"])], "pre": [("dof addresses lie in [0, nv)", And(ge(dof, 0), lt(dof, nv)))]}
+
+
+def expected_limit_tendon(R):
+  w, t = R.tid
+  ten = R.rd("tendon_limited_adr", t)
+  rng = _mrdv(R, "tendon_range", ten, n=2)
+  margin = _mrd(R, "tendon_margin", ten)
+  s = _two_sided(R.rd("ten_length_in", w, ten), rng[0], rng[1], margin)
+  pa = sub(s["dist"], margin)
+  row = _row(pa, pa, _mrd(R, "tendon_invweight0", ten), _mrdv(R, "tendon_solref_lim", ten, n=2), _mrdv(R, "tendon_solimp_lim", ten, n=5), margin, 0.0, LIMIT_TENDON, ten)
+  pre = [("tendon Jacobian rows are well-formed CSR rows (sorted columns in [0,nv))", And(*tendon_J_pre(R, ten)))]
+  return {"act": s["one"], "none": s["none"], "both": s["both"], "counter": "nl_out", "rows": [row], "J": lambda r, c: tendon_Jt(R, ten, c, s["sign"]), "pre": pre, "cases": tendon_cases(R, ten) if R.sym else []}
